@@ -157,6 +157,26 @@ def same_labels(a: Optional[List[Any]], b: List[List[Any]]) -> Any:
     return ok
 
 
+def text_comparable(labels: List[List[Any]]) -> bool:
+    """Whether the library's textual rendering of these labels can be compared octet for octet: labels
+    holding solver octets are opaque tokens (always comparable); concrete labels must be valid UTF-8
+    without a dot (the library replaces invalid sequences by U+FFFD and joins labels with dots - the
+    lossy text form of names is outside this property's claim, see META['outside'])."""
+    from vkit.pkt import is_symbolic
+
+    for lab in labels:
+        if any(is_symbolic(o) for o in lab):
+            continue
+        raw = bytes(int(o) for o in lab)
+        if b'.' in raw:
+            return False
+        try:
+            raw.decode('utf-8')
+        except UnicodeDecodeError:
+            return False
+    return True
+
+
 def make(shape: Dict[str, Any]) -> Any:
     P = shape['payload']
     counts = shape['counts']  # qd, an, ns, ar  (ints) or 'symbolic'
@@ -265,6 +285,141 @@ def make_long_label(shape: Dict[str, Any]) -> Any:
     return fn
 
 
+def _cells(k: int, direction: str, base: int) -> bytes:
+    """The concrete pointer cells, built outside the tracer (a traced bytearray becomes a concatenation tree)."""
+    import sys
+
+    def build() -> bytes:
+        cells = bytearray()
+        for i in range(k):
+            if direction == 'backward':
+                tgt = 12 if i == 0 else base + 2 * (i - 1)
+            else:
+                tgt = base + 2 * (i + 1)
+            cells += bytes([0xC0 | (tgt >> 8), tgt & 0xFF])
+        return bytes(cells)
+
+    if 'crosshair.core' in sys.modules:
+        from crosshair.tracers import NoTracing
+
+        with NoTracing():
+            return build()
+    return build()
+
+
+def _split(cells: bytes, broken: int) -> Tuple[bytes, bytes]:
+    import sys
+
+    if 'crosshair.core' in sys.modules:
+        from crosshair.tracers import NoTracing
+
+        with NoTracing():
+            return cells[: 2 * broken + 1], cells[2 * broken + 2:]
+    return cells[: 2 * broken + 1], cells[2 * broken + 2:]
+
+
+def chain_packet(ctx: Any, k: int, broken: Optional[int], direction: str, prefix: str = '') -> Tuple[SymPacket, Dict[str, Any]]:
+    """A response whose second record's owner name is reached through k compression pointers that lie in
+    the rdata of a TXT record (backward chain ending at the question's name), or a question whose name is
+    reached through k forward pointers.  The low octet of cell `broken` is a solver variable: the chain
+    then lands on any octet of a 256-octet window (another cell: shortcut or cycle; the middle of a cell;
+    the header)."""
+    label = wire.sym_octet(ctx.int(prefix + 'label_octet', 0, 255))
+    # with a broken cell the chain may land on any octet; id and TTL are then concrete (as length octets they would only multiply paths)
+    ident = wire.Tok(ctx.int(prefix + 'id', 0, 65535) if broken is None else 0x1234, 2)
+    info: Dict[str, Any] = {}
+    if direction == 'backward':
+        base = 30
+        cells = _cells(k, direction, base)
+        last = base + 2 * (k - 1)
+        hdr = [ident, wire.Tok(0x8400, 2), wire.Tok(1, 2), wire.Tok(2, 2), wire.Tok(0, 2), wire.Tok(0, 2)]
+        elems: List[Any] = hdr + [wire.Tok(1, 1), label, wire.Tok(0, 1), wire.Tok(12, 2), wire.Tok(1, 2)]
+        elems += [wire.Tok(0, 1), wire.Tok(16, 2), wire.Tok(1, 2), wire.Tok(120, 4), wire.Tok(2 * k, 2)]
+        if broken is None:
+            elems.append(cells)
+        else:
+            before, after = _split(cells, broken)
+            elems += [before, wire.sym_octet(ctx.int(prefix + 'broken_low_octet', 0, 255)), after]
+        elems += [wire.Tok(0xC000 | last, 2), wire.Tok(1, 2), wire.Tok(0x8001, 2), wire.Tok(ctx.int(prefix + 'ttl', 0, 2**32 - 1) if broken is None else 4500, 4), wire.Tok(4, 2), wire.Tok(0x0A000001, 4)]
+        info['hops'] = k + 1
+    else:
+        # question name = pointer to cell 0; cell i -> cell i+1; the last cell is the label
+        base = 18
+        cells = _cells(k, direction, base)
+        hdr = [ident, wire.Tok(0, 2), wire.Tok(1, 2), wire.Tok(0, 2), wire.Tok(0, 2), wire.Tok(0, 2)]
+        elems = hdr + [wire.Tok(0xC000 | base, 2), wire.Tok(12, 2), wire.Tok(1, 2)]
+        if broken is None:
+            elems.append(cells)
+        else:
+            before, after = _split(cells, broken)
+            elems += [before, wire.sym_octet(ctx.int(prefix + 'broken_low_octet', 0, 255)), after]
+        elems += [wire.Tok(1, 1), label, wire.Tok(0, 1)]
+        info['hops'] = k + 1
+    return SymPacket(elems), info
+
+
+def make_chain(shape: Dict[str, Any]) -> Any:
+    """Deep compression graphs: the structure (k cells) is the shape, the id, a label octet, a TTL and the
+    low octet of one pointer are solver variables.  Oracle as for the payload templates."""
+    k, broken, direction = shape['cells'], shape.get('broken'), shape['direction']
+
+    def fn(ctx: Any) -> None:
+        env.begin(ctx, 1000)
+        dns.hash = lambda t: 0  # type: ignore[attr-defined]
+        del OCTET_TABLE[:]
+        calls = [0]
+        saved = {}
+        for meth in ('_decode_labels_at_offset', '_read_name', '_read_record'):
+            orig = getattr(DNSIncoming, meth)
+            saved[meth] = orig
+
+            def counting(self: Any, *a: Any, _orig: Any = orig, **kw: Any) -> Any:
+                calls[0] += 1
+                return _orig(self, *a, **kw)
+
+            setattr(DNSIncoming, meth, counting)
+        try:
+            pkt, info = chain_packet(ctx, k, broken, direction)
+            try:
+                msg = DNSIncoming(pkt, ('10.0.0.9', 5353), None, 1000)  # type: ignore[arg-type]
+                answers = msg.answers()
+                questions = msg.questions
+            except Exception as e:
+                ctx.check(False, f'exception {type(e).__name__} escaped the decoder')
+                return
+            if ctx.twin:
+                return
+            ctx.check(calls[0] <= 4 * len(pkt) + 8, 'decoder work exceeds the linear budget (pointer chasing)')
+            if msg.valid:
+                for q in questions:
+                    ctx.check(len(q.name) <= 253, 'decoded question name longer than 253 characters')
+                for r in answers:
+                    ctx.check(len(r.name) <= 253, 'decoded record name longer than 253 characters')
+            try:
+                ref = Strict(pkt).parse()
+            except (Reject, IndexError):
+                return
+            if not ctx.check(msg.valid, 'a datagram the strict RFC 1035 reader accepts is marked invalid'):
+                return
+            ctx.check(msg.id == ref['id'], 'header id differs from the strict reader')
+            ctx.check(len(questions) == len(ref['questions']), 'number of questions differs from the strict reader')
+            for q, (labels, t, c) in zip(questions, ref['questions']):
+                if text_comparable(labels):
+                    ctx.check(same_labels(labels_of(q.name), labels), 'question name differs from the strict reader')
+            if not ctx.check(len(answers) == len(ref['records']), f'{len(answers)} records decoded, strict reader has {len(ref["records"])}'):
+                return
+            for r, w in zip(answers, ref['records']):
+                if text_comparable(w['name']):
+                    ctx.check(same_labels(labels_of(r.name), w['name']), 'record owner name differs from the strict reader')
+                ctx.check(r.type == w['type'] and r.ttl == w['ttl'], 'record type / TTL differs from the strict reader')
+        finally:
+            for meth, orig in saved.items():
+                setattr(DNSIncoming, meth, orig)
+            dns.hash = env._native_hash  # type: ignore[attr-defined]
+
+    return fn
+
+
 def obligations(tier: str) -> List[Obligation]:
     obs = []
     P = 5 if tier == 'quick' else 7
@@ -285,6 +440,14 @@ def obligations(tier: str) -> List[Obligation]:
             shape = {'payload': 0, 'counts': [0, 1, 0, 0], 'flags': 0x8400, 'record_type': t, 'rdata_prefix': prefix, 'rdata': R if tier == 'quick' or nm == 2 else R + 1, 'name_octets': nm}
             obs.append(Obligation(f'decode[record {name};name={nm};rdata={prefix}+{shape["rdata"]}]', make(shape), 'decode-record', shape, timeout=280 if tier == 'quick' else 1500))
     obs.append(Obligation('label-of-any-legal-length', make_long_label({}), 'long-label', {}, timeout=120))
+    chains = [('backward', 3, None), ('backward', 64, None), ('backward', 65, None), ('backward', 1100, None), ('forward', 3, None), ('forward', 1100, None),
+              ('backward', 8, 4), ('forward', 8, 4)]
+    if tier != 'quick':
+        chains += [('backward', 4460, None), ('forward', 4470, None), ('backward', 127, None), ('backward', 128, None), ('backward', 129, None), ('backward', 130, None),
+                   ('forward', 127, None), ('forward', 128, None), ('forward', 129, None), ('backward', 24, 12), ('forward', 24, 12), ('backward', 60, 30), ('forward', 60, 30), ('backward', 1100, 1090), ('forward', 1100, 10)]
+    for direction, k, broken in chains:
+        shape = {'cells': k, 'broken': broken, 'direction': direction}
+        obs.append(Obligation(f'chain[{direction};cells={k};broken={broken if broken is not None else "-"}]', make_chain(shape), 'chain', shape, timeout=280 if tier == 'quick' else 1500))
     for p in ((0, 1) if tier == 'quick' else (0, 1, 2)):
         shape = {'payload': p, 'counts': 'symbolic'}
         obs.append(Obligation(f'decode[symbolic-header;payload={p}]', make(shape), 'decode-header', shape, timeout=280 if tier == 'quick' else 1500))
@@ -296,13 +459,15 @@ META = {
     'by P payload octets that are all z3 integers 0..255 (P = 3, 5 quick; 3, 5, 7 thorough), and a template with symbolic id / flags / counts 0..1 and 0..2 payload octets. '
     'CrossHair exhausts every way the octets can tile into labels, pointers, fixed fields and rdata. Checked on every path: no exception leaves the decoder; calls of '
     '_decode_labels_at_offset + _read_name + _read_record stay within 4 * length + 8; names <= 253 characters; whenever the strict RFC 1035 reader in props/c02.py accepts the '
-    'same octets and only A / AAAA / PTR / CNAME / TXT / SRV records occur, header, questions and records equal the strict reader\'s (names compared label by label as octets).',
+    'same octets and only A / AAAA / PTR / CNAME / TXT / SRV records occur, header, questions and records equal the strict reader\'s (names compared label by label as octets). chain[*]: deep compression graphs - a response whose second record's owner is reached through k backward pointers lying in TXT rdata, or a question reached '
+    'through k forward pointers, k in 3..4470 (the whole 8966-octet datagram), id / one label octet / TTL symbolic; in the broken variants the low octet of one pointer is symbolic so that the chain '
+    'lands on any octet of a 256-octet window (shortcut, cycle, middle of a cell, header); same oracle (names compared only when their text form is lossless).',
     'functions': [
         'zeroconf._protocol.incoming.DNSIncoming.__init__/_initial_parse/_read_header/_read_questions/_read_others/_read_record/_read_name/_decode_labels_at_offset/'
         '_read_string/_read_character_string/_read_bitmap/answers/_log_exception_debug', 'DNSQuestion/DNSRecord constructors',
     ],
-    'bounds': {'datagram length': '12 + P octets, P <= 5 (quick) / 7 (thorough); record templates: one record of a fixed type (A, AAAA, PTR, TXT, SRV, HINFO, NSEC, unknown) with symbolic owner octet(s), RDLENGTH and 2..4 rdata octets after a fixed rdata prefix (class / TTL fixed), RDLENGTH 0..rdata+2', 'octets': [0, 255], 'header': 'five concrete count templates; one template with symbolic id, flags and counts 0..1'},
-    'outside': ['datagrams longer than 19 octets: in particular compression-pointer chains deep enough to exhaust the interpreter stack (the RecursionError named in the property needs about 2 KB) are NOT reached',
+    'bounds': {'datagram length': '12 + P octets, P <= 5 (quick) / 7 (thorough); record templates: one record of a fixed type (A, AAAA, PTR, TXT, SRV, HINFO, NSEC, unknown) with symbolic owner octet(s), RDLENGTH and 2..4 rdata octets after a fixed rdata prefix (class / TTL fixed), RDLENGTH 0..rdata+2', 'octets': [0, 255], 'header': 'five concrete count templates; one template with symbolic id, flags and counts 0..1', 'chain cells': 'quick 3, 64, 65, 1100 (plain), 8 (broken); thorough also 127..130, 4460 / 4470 (plain), 24, 60, 1100 (broken)'},
+    'outside': ['datagrams with more than 7 free payload octets, except the enumerated compression graphs of the chain[*] family (3..4470 pointer cells in a row, forward or backward, one low octet symbolic in the broken variants): other deep graphs (trees, several chains sharing cells, chains interleaved with labels) are NOT reached',
                 'the text of labels (decode("utf-8", "replace") is opaque: names are compared as octets)', 'faithfulness for HINFO / NSEC / unknown record types', 'the oversize guard (C15)'],
     'stubs': ['datagram presented as vkit.pkt.SymPacket (len / index / slice over solver octets); label text is an opaque token', '`hash` in zeroconf._dns returns 0', 'counting wrappers around three decoder methods'],
     'float_sites': [],
